@@ -19,7 +19,7 @@ AREAS = {
     },
 }
 
-STORE_RULE = "seeded generator of scripts against one fresh instance (embedded NATS server + store.NewStore on a temp SQLite file): 2-6 nodes created edge-first or points-first, mirrors and diamonds, then 4-13 requests: node-point batches over an alphabet built to collide (types value/description/ab/a/tA, keys \"\"/0/1/b/k/10, both spellings of one identity in one batch, re-deliveries, stale and future times, values 0, +-Inf, 1e300, 5e-324, 2^53, random finite bit patterns, text incl. Unicode and newlines, data blobs, tombstone counts, origins), edge-point writes (delete / undelete / other types), structure changes, and refused requests (self edge, cycle through live or deleted edges, root tombstone, first edge without node type below a node or below the sentinel root, NaN or a time outside the 64-bit nanosecond range in node or edge batches), points at the first and last representable instant; after every request the reply, everything received on up.> and a dump of every edge into every known node (nodes.all.<id>, deleted included) are recorded; a script is non-trivial when it has more than 3 requests; distinct by SHA-1 of its requests"
+STORE_RULE = "seeded generator of scripts against one fresh instance (embedded NATS server + store.NewStore on a temp SQLite file): 2-6 nodes created edge-first or points-first, mirrors and diamonds, then 4-13 requests: node-point batches over an alphabet built to collide (types value/description/ab/a/tA, keys \"\"/0/1/b/k/10, both spellings of one identity in one batch, re-deliveries, stale and future times, values 0, +-Inf, 1e300, 5e-324, 2^53, random finite bit patterns, text incl. Unicode and newlines, data blobs, tombstone counts, origins), edge-point writes (delete / undelete / other types), structure changes, and refused requests (self edge, cycle through live or deleted edges, root tombstone, first edge without node type below a node or below the sentinel root, NaN or a time outside the 64-bit nanosecond range in node or edge batches), points at the first and last representable instant, the value negative zero (handed to the model as zero: the store keeps it as 0), one batch of 130 points in one script of twelve, in the scripts other than the newest-wins ones one write in ten at an instant already used for its identity, in the newest-wins scripts batches whose checksums cancel (two identities whose type+key concatenate alike, same instant, text and value), root tombstones of any positive value, and a store maintenance run (admin.storeMaint) after one request in 15 before the dump; after every request the reply, everything received on up.> and a dump of every edge into every known node (nodes.all.<id>, deleted included) are recorded; a script is non-trivial when it has more than 3 requests; distinct by SHA-1 of its requests"
 STORE_TRUSTED = ["model of nodePoints/edgePoints/updateHash/up and the two write handlers: coq/theories/Store/Model.v (hand-written, tied by this run's correspondence: every reply, rebroadcast subject and payload, and every dump incl. every hash must agree)", 'bit-level CRC-32/IEEE and float64 predicates (NaN, >0, even) written in Coq and diffed against hash/crc32 and Go float semantics through the stored hashes and replies']
 STORE_ASSUME = ['SQLite, database/sql and NATS request/reply behave as documented (a write is visible to reads issued after its reply)', 'node ids are NATS subject tokens without quotes; strings are valid UTF-8 without NUL; times are non-zero (the store stamps a zero time with its own clock); times outside the 64-bit nanosecond range are generated and must be refused; edge tombstone points carry 0, 1 or 2']
 
